@@ -416,3 +416,12 @@ Theorem C08_mixture_row_entry : forall (x : R) (locs scales : list R) (k : nat),
   = - ln (normal_pdf x (nth k locs 0) (nth k scales 0)) + (c32 - ln (sqrt (2 * PI))).
 Proof. exact mixture_row_entry. Qed.
 Print Assumptions C08_mixture_row_entry.
+
+(** ** The attachment of the mixture model: [gen_attach_mixture] is the public route of the observation model of a real mixture
+    model (the ordinary Gaussian family, evaluated on the individual's ONE trajectory state["model"]; the clusters enter the
+    likelihood through the priors of xi, tau, sources only - the C08_mixture theorems). *)
+Theorem C08_attach_mixture : forall y model noise_std : R,
+  0 < noise_std ->
+  gen_attach_mixture y model noise_std = - ln (normal_pdf y model noise_std) + (c32 - ln (sqrt (2 * PI))).
+Proof. exact attach_mixture. Qed.
+Print Assumptions C08_attach_mixture.
